@@ -73,3 +73,31 @@ Lemma rich_reachable :
 Proof.
   eexists. split; [vm_compute; reflexivity|]. repeat split; try reflexivity. cbn. discriminate.
 Qed.
+
+(** * Release of reactive resources (Server/Release.v) *)
+From Thunder Require Import Server.Release.
+
+(** F13 again: the overwritten subscription's computation still holds resource 7 after the connection closed. *)
+Definition h_f13_res : list label :=
+  [LSubscribe 0 QOk; LRegister 0 7; LRun 0 (OOk v1); LMutate 0 QOk; LRun 1 (OOk v1); LCloseTask 0 1; LSocketClose].
+
+Lemma f13_release_witness :
+  exists s rs, runR (only_mutdup_missing 3) (init, rinit) h_f13_res = Some (s, rs) /\ st_closed s = true
+               /\ rs_entries rs = [mk_rentry 7 0 RCur] /\ rs_released rs = [].
+Proof. eexists. eexists. split; [vm_compute; reflexivity|]. repeat split. Qed.
+
+(** Non-vacuity: resources of a superseded computation, of a failed computation, of an unsubscribed
+    subscription and of one ended by the socket closing - each released once. *)
+Definition h_release : list label :=
+  [LSubscribe 0 QOk; LRegister 0 1; LRegister 0 2; LRun 0 (OOk v1);      (* 1, 2 held *)
+   LRegister 0 3; LRun 0 (OOk v2);                                        (* 1, 2 released; 3 held *)
+   LRegister 0 4; LRun 0 (OErr "boom");                                   (* retry: 4 released *)
+   LSubscribe 1 QOk; LRegister 1 5; LRun 1 (OOk v1);
+   LUnsubscribe 0;                                                        (* 3 released *)
+   LBreak; LRegister 1 6; LRun 1 (OOk v2);                                (* the write fails: socket closed; 5 released *)
+   LSocketClose].                                                         (* 6 released *)
+
+Lemma release_example :
+  exists s rs, runR (repaired 3) (init, rinit) h_release = Some (s, rs) /\ st_closed s = true
+               /\ rs_released rs = [6; 5; 3; 4; 2; 1] /\ List.length (st_out s) = 3 /\ st_sockclosed s = true.
+Proof. eexists. eexists. split; [vm_compute; reflexivity|]. repeat split. Qed.
